@@ -18,8 +18,8 @@ Proof. vm_compute. reflexivity. Qed.
 (* ---- a concrete non-trivial state used by the non-vacuity examples: one topology loaded with two
         distances structures and one backend-registered attribute, a third structure added later, one
         XML export already done (statics warm) ---- *)
-Definition ex_cfg : loadcfg := mkCfg false false false [4; 2] 1 None true.
-Definition ex_glob0 : glob := mkGlob [] [] true 0.
+Definition ex_cfg : loadcfg := mkCfg false false false [4; 2] 1 None true false false false.
+Definition ex_glob0 : glob := mkGlob [] [] true 0 true.
 Definition ex_s0 : state := mkState [] ex_glob0.
 Definition ex_setup : list op :=
   [OInit 0; OLoad 0 ex_cfg; OMod 0 (MDistAdd 3); OMod 0 (MMaSet 2 true); OMod 0 MRefresh; OCons 0 CExportXml].
@@ -60,7 +60,7 @@ Proof. vm_compute. repeat split; reflexivity. Qed.
 (* regression witness (before fix 12fb556 refresh skipped memattrs under NO_MEMATTRS and this history ended
    invalid): a user attribute registered on a NO_MEMATTRS topology, a new target, restrict, refresh *)
 Example refresh_nomemattr_user_attribute_regression :
-  let p := [OInit 0; OLoad 0 (mkCfg false true false [] 0 None false); OMod 0 MMaRegister; OMod 0 (MMaSet 0 true)] in
+  let p := [OInit 0; OLoad 0 (mkCfg false true false [] 0 None false false false false); OMod 0 MMaRegister; OMod 0 (MMaSet 0 true)] in
   all_valid (fst (fst (run_prog ex_s0 p))) = false /\
   all_valid (fst (fst (run_prog ex_s0 (p ++ [OMod 0 MRefresh])))) = true /\
   all_valid (fst (fst (run_prog ex_s0 (p ++ [OMod 0 MRefresh; OMod 0 (MRestrict true [])])))) = false /\
@@ -79,7 +79,7 @@ Print Assumptions load_ends_valid.
 (* regression witness: the configuration that used to end invalid; the restrict does invalidate
    (six CACHE_VALID bits cleared in the event list), the added refresh sets them again *)
 Example load_with_binding_restrict_regression :
-  let c := mkCfg false false false [4; 3] 0 (Some (Some [2; 1])) false in
+  let c := mkCfg false false false [4; 3] 0 (Some (Some [2; 1])) false false false false in
   topo_valid (fst (load_run 0 c)) = true /\ length (t_dists (fst (load_run 0 c))) = 1 /\
   length (filter (fun e => match e_loc e with LMaFlags _ _ => e_wr e && Nat.eqb (e_val e) 0 | _ => false end) (snd (load_run 0 c))) = 12.
 Proof. vm_compute. repeat split; reflexivity. Qed.
@@ -144,7 +144,7 @@ Print Assumptions interleaving_race_free.
 
 Example interleaving_race_free_nonvacuous :
   (forall p, In p [ex_reader; rev ex_reader; ex_reader] -> readers_ok (s_glob ex_state) p = true) /\
-  length (events_of ex_state ex_reader) = 74 /\
+  length (events_of ex_state ex_reader) = 75 /\
   race_b (alone 0 (events_of ex_state ex_reader) ++ alone 1 (events_of ex_state (rev ex_reader))) = false.
 Proof.
   split; [|vm_compute; split; reflexivity].
@@ -223,7 +223,7 @@ Definition ex_history (t : nat) : list op :=
    OMod t (MMaSet 3 true); OCons t CDistGet; OCons t CExportXml; ODestroy t].
 Example independent_topologies_nonvacuous :
   (forall o o', In o (ex_history 0) -> In o' (ex_history 1) -> op_topo o <> op_topo o') /\
-  length (events_of ex_s0 (ex_history 0)) = 215 /\
+  length (events_of ex_s0 (ex_history 0)) = 219 /\
   (* cold: the only conflicts are on statics; *)
   forallb is_static_loc (conflict_locs [events_of ex_s0 (ex_history 0); events_of ex_s0 (ex_history 1)]) = true /\
   conflict_locs [events_of ex_s0 (ex_history 0); events_of ex_s0 (ex_history 1)] <> [] /\
@@ -236,6 +236,70 @@ Proof.
       repeat (destruct H' as [H'|H']; [subst o'|]); try destruct H'; simpl; discriminate.
   - vm_compute. repeat split; try reflexivity. discriminate.
 Qed.
+
+(* ---------------------------------------------------------------- *)
+(* RESULTS: a thread's results do not depend on what other threads do to other topologies, under every
+   schedule of calls - provided no call writes a process-wide static after its first use outside the mutex.
+   The process-wide statics of the model: the five `checked` caches and `warned` (static_id: they cache
+   constants, results do not depend on them), hwloc_components_users / the component registry (mutex), and
+   the XML backend pointers hwloc_libxml_callbacks / hwloc_nolibxml_callbacks (LXmlBackend): the only one that
+   is written after first use without the mutex, by the "libxml2 unusable" fallback of every XML entry point
+   (errno == ENOSYS).  [backend_stable] excludes exactly the calls that take that fallback; checks/c17.py
+   compares the write sites and their guards in the current topology-xml.c with this, and nm's list of
+   writable statics with the list above. *)
+Theorem independent_results_partial : forall t0 A sched progs sc sa,
+  rel A sc sa ->
+  (forall o, In o (nth t0 progs []) -> In (op_topo o) A /\ backend_stable o = true) ->
+  (forall u o, u <> t0 -> In o (nth u progs []) -> ~ In (op_topo o) A /\ backend_stable o = true) ->
+  results_of_thread t0 (snd (run_sched sc progs sched)) =
+    firstn (count_occ Nat.eq_dec sched t0) (results_of sa (nth t0 progs [])).
+Proof. exact EventsProofs.results_independent_of_other_threads. Qed.
+Print Assumptions independent_results_partial.
+
+(* histories with failing loads (malformed document, bad synthetic), parser-demanding documents, modifications *)
+Definition cfg_bad_xml : loadcfg := mkCfg false false false [] 0 None true true false false.
+Definition cfg_bad_synth : loadcfg := mkCfg false false false [] 0 None false true false false.
+Definition cfg_fussy_xml : loadcfg := mkCfg false false false [4] 1 None true false true false.
+Definition cfg_enosys_xml : loadcfg := mkCfg false false false [] 0 None true true false true.
+Definition hist_failing (t : nat) : list op :=
+  [OInit t; OLoad t cfg_bad_xml; OLoad t cfg_bad_synth; OLoad t ex_cfg; OCons t CExportXml; ODestroy t; OInit t; OLoad t cfg_bad_xml; ODestroy t].
+Definition hist_fussy (t : nat) : list op :=
+  [OInit t; OLoad t cfg_fussy_xml; OMod t (MMaSet 2 true); OCons t CDistGet; OCons t CExportXml; ODestroy t; OInit t; OLoad t cfg_fussy_xml; ODestroy t].
+Example independent_results_nonvacuous :
+  rel [1] ex_s0 ex_s0 /\
+  (forall o, In o (hist_fussy 1) -> In (op_topo o) [1] /\ backend_stable o = true) /\
+  (forall o, In o (hist_failing 0) -> ~ In (op_topo o) [1] /\ backend_stable o = true) /\
+  results_of ex_s0 (hist_fussy 1) = [[1]; [1]; [1]; [1; 4]; [1]; [1]; [1]; [1]; [1]] /\
+  results_of ex_s0 (hist_failing 0) = [[1]; [0]; [0]; [1]; [2]; [1]; [1]; [0]; [1]] /\
+  results_of_thread 1 (snd (run_sched ex_s0 [hist_failing 0; hist_fussy 1] [0; 0; 1; 0; 1; 1; 0; 0; 1; 1; 0; 1; 0; 1; 0; 1; 1; 0])) = results_of ex_s0 (hist_fussy 1).
+Proof.
+  split; [repeat split; intros; reflexivity|].
+  split; [intros o H; simpl in H; repeat (destruct H as [H|H]; [subst o; split; [left; reflexivity | reflexivity]|]); destruct H|].
+  split; [intros o H; simpl in H; repeat (destruct H as [H|H]; [subst o; split; [simpl; intros [X|[]]; discriminate | reflexivity]|]); destruct H|].
+  vm_compute. repeat split; reflexivity.
+Qed.
+
+(* without the hypothesis the statement is false: one thread's load that takes the ENOSYS fallback clears the
+   process-wide backend pointer, and another thread's load of a parser-demanding document on its own
+   topology then fails although it succeeds alone.  With the installed libxml2 the fallback cannot be
+   triggered, so this is a statement about the code path, not a reproduced defect; a change that makes the
+   fallback reachable (seeded C17c: also on errno == EINVAL, i.e. on any malformed document) turns it into one:
+   corpus/c17/failing-xml-load-next-to-fussy-xml-load.case *)
+Theorem independent_results_refuted :
+  exists progs sched,
+    (forall u o, In o (nth u progs []) -> op_topo o = u) /\
+    results_of ex_s0 (nth 1 progs []) = [[1]; [1]] /\
+    results_of_thread 1 (snd (run_sched ex_s0 progs sched)) = [[1]; [0]] /\
+    In LXmlBackend (conflict_locs (map (events_of ex_s0) progs)).
+Proof.
+  exists [[OInit 0; OLoad 0 cfg_enosys_xml]; [OInit 1; OLoad 1 cfg_fussy_xml]], [0; 1; 0; 1].
+  split.
+  - intros [|[|u]] o H; simpl in H; try (destruct u; destruct H).
+    + destruct H as [H|[H|[]]]; subst o; reflexivity.
+    + destruct H as [H|[H|[]]]; subst o; reflexivity.
+  - vm_compute. repeat split; try reflexivity. tauto.
+Qed.
+Print Assumptions independent_results_refuted.
 
 (* ---------------------------------------------------------------- *)
 (* hwloc_components_users: under every schedule of init / use / fini critical sections that respects
